@@ -252,6 +252,6 @@ Proof.
     apply andb_prop in Ec. destruct Ec as [C1 C2]. apply N.leb_le in C1, C2. change (2 ^ 20) with 1048576. auto. }
   destruct Hr as (R & B1 & B2 & C1 & C2).
   destruct (byte_run_succeeds o L md5 Hmd p rate bps ch R B1 B2 C1 C2 en wo total w chunks Hwf Hnew Hbytes Hfit HW Hlen Htot) as [f Hf].
-  destruct (e2e_byte_pcm o L md5 Hmd p rate bps en wo ch total w chunks f Hwf Hnew Hf Hbytes Hfit Hlen) as (blocks & Hd & Hc).
+  destruct (e2e_byte_pcm o L md5 Hmd p rate bps en wo ch total w chunks f Hwf Hnew Hf Hbytes Hfit Hlen) as (blocks & Hd & Hc & _).
   exists f, blocks. auto.
 Qed.
